@@ -447,14 +447,14 @@ func (t *c20Tracer) note(msg *pubsub.Message, what string, reason string) {
 	}
 }
 
-func (t *c20Tracer) AddPeer(peer.ID, protocol.ID)        {}
-func (t *c20Tracer) RemovePeer(peer.ID)                  {}
-func (t *c20Tracer) Join(string)                         {}
-func (t *c20Tracer) Leave(string)                        {}
-func (t *c20Tracer) Graft(peer.ID, string)               {}
-func (t *c20Tracer) Prune(peer.ID, string)               {}
-func (t *c20Tracer) ValidateMessage(m *pubsub.Message)   { t.note(m, "validate", "") }
-func (t *c20Tracer) DeliverMessage(m *pubsub.Message)    { t.note(m, "deliver", "") }
+func (t *c20Tracer) AddPeer(peer.ID, protocol.ID)      {}
+func (t *c20Tracer) RemovePeer(peer.ID)                {}
+func (t *c20Tracer) Join(string)                       {}
+func (t *c20Tracer) Leave(string)                      {}
+func (t *c20Tracer) Graft(peer.ID, string)             {}
+func (t *c20Tracer) Prune(peer.ID, string)             {}
+func (t *c20Tracer) ValidateMessage(m *pubsub.Message) { t.note(m, "validate", "") }
+func (t *c20Tracer) DeliverMessage(m *pubsub.Message)  { t.note(m, "deliver", "") }
 func (t *c20Tracer) RejectMessage(m *pubsub.Message, r string) {
 	t.note(m, "reject", r)
 }
